@@ -26,6 +26,18 @@ CHECKS = {
              "facts extracted from the current option.py equal the ones the theorems assume.",
         note="Trusted: Coq kernel+VM, the ast translator (shape recognition of option.py), contextlib semantics, "
              "single-threaded use. Correspondence is exhaustive for nested programs up to 3 (quick) / 4 (thorough, sampled above 60k) nodes."),
+    "C20": dict(
+        technique="Coq proof (stdlib, lia): key codec bijection on the representable range, guarded product key = encoded "
+                  "exponent sum, key-indexed storage merges exactly equal rows; bridge lemmas over facts regenerated from "
+                  "baseclass.py/polynomial.py/multiply.py; exhaustive codec sweep + all pairs a+b<=bound on /repo",
+        text="Theorems (Props/P_C20.v): decode(encode e)=e and encode injective for every exponent whose code point fits "
+             "uint32, never ':'/NUL, every exponent < 55000 representable, rows likewise; with multiply.py's guard (read "
+             "from the source) the product key is the encoded exponent sum for ALL exponents, hence products through key "
+             "storage and back are the exact term-by-term product merged by exponent row ((c q^a)(d q^b) = cd q^(a+b)); "
+             "the unguarded kernel is refuted (witnesses 34+35, 128+128).",
+        note="Trusted: Coq kernel+VM, stdlib; translator key_tr.py; numpy's field-name acceptance modelled by valid_cp and "
+             "validated on every exponent 0..60000; streams through derivative/call/pickle/text files are checked against "
+             "harness-side exact integer arithmetic, not against a theorem. Text files may raise for non-ASCII keys (allowed)."),
 }
 
 
